@@ -30,6 +30,8 @@ type Case struct {
 // success/error and the bytes.
 func render(f *recipe.File) string { return renderWith(f, false) }
 
+var plain bool
+
 // callerTable is the one map a caller might keep for all its ImportNames calls.
 var callerTable = map[string]string{}
 
@@ -41,10 +43,13 @@ func renderWith(f *recipe.File, reuse bool) string {
 	err := hx.Safe(func() error {
 		var jf *jen.File
 		func() {
-			defer func() { recipe.CallerTable = nil }()
+			defer func() { recipe.CallerTable = nil; recipe.NoCloneForm = false }()
 			if reuse {
 				recipe.CallerTable = callerTable
 			}
+			// the same construction through slightly different, equivalent call sequences: every other
+			// build continues some call chains on a clone (see recipe.Builder.Stmt), the others do not
+			recipe.NoCloneForm = plain
 			jf = (&recipe.Builder{}).File(f)
 		}()
 		if reuse {
@@ -79,7 +84,10 @@ func check(c Case) error {
 		return fmt.Errorf("%s", first)
 	}
 	for i := 1; i < c.Rebuilds; i++ {
-		if got := renderWith(c.File, i%3 == 1); got != first {
+		plain = i%2 == 1
+		got := renderWith(c.File, i%3 == 1)
+		plain = false
+		if got != first {
 			return fmt.Errorf("build %d of the same recipe renders differently:\n--- first ---\n%s\n--- build %d ---\n%s", i+1, first, i+1, got)
 		}
 	}
